@@ -25,6 +25,12 @@ type Hook interface {
 	Release(m *RWMutex, write bool)
 	// Yield is a plain decision point: the scheduler may run another task before the caller continues.
 	Yield(label string)
+	// TryAcquire is the non-blocking form (TryLock / TryRLock): a decision point, then the model's answer.
+	TryAcquire(m *RWMutex, write bool) bool
+	// Unheld is asked before every release: it reports (and records) the release of a lock that is not held, which the real
+	// primitive answers with a fatal error - in production that ends the process and with it every request in flight. The
+	// release is then skipped.
+	Unheld(m *RWMutex, write bool) bool
 }
 
 // H is the installed hook (nil: plain behaviour).
@@ -47,6 +53,9 @@ func (m *RWMutex) Lock() {
 }
 
 func (m *RWMutex) Unlock() {
+	if H != nil && H.Unheld(m, true) {
+		return
+	}
 	m.real.Unlock()
 	if H != nil {
 		H.Release(m, true)
@@ -61,17 +70,43 @@ func (m *RWMutex) RLock() {
 }
 
 func (m *RWMutex) RUnlock() {
+	if H != nil && H.Unheld(m, false) {
+		return
+	}
 	m.real.RUnlock()
 	if H != nil {
 		H.Release(m, false)
 	}
 }
 
+func (m *RWMutex) TryLock() bool {
+	if H != nil && !H.TryAcquire(m, true) {
+		return false
+	}
+	return m.real.TryLock()
+}
+
+func (m *RWMutex) TryRLock() bool {
+	if H != nil && !H.TryAcquire(m, false) {
+		return false
+	}
+	return m.real.TryRLock()
+}
+
+// RLocker returns a Locker whose Lock and Unlock are RLock and RUnlock.
+func (m *RWMutex) RLocker() sync.Locker { return rlocker{m} }
+
+type rlocker struct{ m *RWMutex }
+
+func (r rlocker) Lock()   { r.m.RLock() }
+func (r rlocker) Unlock() { r.m.RUnlock() }
+
 // Mutex replaces sync.Mutex.
 type Mutex struct{ rw RWMutex }
 
-func (m *Mutex) Lock()   { m.rw.Lock() }
-func (m *Mutex) Unlock() { m.rw.Unlock() }
+func (m *Mutex) Lock()         { m.rw.Lock() }
+func (m *Mutex) Unlock()       { m.rw.Unlock() }
+func (m *Mutex) TryLock() bool { return m.rw.TryLock() }
 
 // ---------------------------------------------------------------- allocator seam
 
